@@ -17,7 +17,11 @@ def gen_cases(spec, P, rng, n_dirs, thorough, wellformed=False):
     ended by completion or abort with bytes queued behind it (the part of C05 that concerns the upload loop)."""
     table = {f["path"]: f["id"] for f in spec["file_ids"]}
     paths = sorted(table)
-    unrelated = ["README.txt", "firmware/readme", "app8/update.spec", "app0/update.tar", "kernel.gz"]
+    # files that are NOT part of an update: other names, and recognised paths one directory too deep / under a look-alike
+    # directory / with another case or an extra suffix (a payload tree with a backup copy in it)
+    unrelated = ["README.txt", "firmware/readme", "app8/update.spec", "app0/update.tar", "kernel.gz",
+                 "backup/firmware/kernel.gz", "old/app1/update.tar.gz", "firmware/firmware/rootfs.gz", "x/y/app0/update.spec",
+                 "firmware/kernel.gz.bak", "Firmware/kernel.gz", "app1/update.spec/update.spec"]
     ops, want, kinds = [], [], []
     ack = bytes([0x80, 0, 0])
     for d in range(n_dirs):
@@ -33,7 +37,9 @@ def gen_cases(spec, P, rng, n_dirs, thorough, wellformed=False):
             files[table[p]] = content(size, seed)
             # one entry in four is a symbolic link to the payload file (staged release trees): same size, same bytes
             desc.append(f"{p}:{size}:{seed}" + (":l" if rng.random() < 0.25 else ""))
-        for u in rng.sample(unrelated, rng.randint(0, 2)):
+        for u in rng.sample(unrelated, rng.randint(0, 3)):
+            if any(d0.split(":")[0].startswith(u + "/") or u.startswith(d0.split(":")[0] + "/") for d0 in desc):
+                continue        # a path cannot be a file and a directory at once
             desc.append(f"{u}:{rng.randint(0, 50)}:{rng.randrange(100)}")
         rng.shuffle(desc)
         block = rng.choice([1, 7, 100, 1024, 32768, rng.randint(1, 32768), rng.randint(110, 132), rng.randint(238, 260)])
